@@ -772,6 +772,8 @@ pub struct World {
     pub log: Vec<Rec>,
     pub seq: u64,
     pub cur_poll: u32,
+    /// pending environment futures polled since the current poll of the state machine began (livelock watchdog)
+    pub pending_polls_in_poll: u64,
     pub in_poll: bool,
     pub gates: Vec<GateSlot>,
     pub wall_ns: i128,
@@ -812,6 +814,7 @@ impl World {
             log: Vec::with_capacity(256),
             seq: 0,
             cur_poll: 0,
+            pending_polls_in_poll: 0,
             in_poll: false,
             gates: vec![],
             wall_ns: 1_700_000_000_000_000_000, // 2023-11-14
